@@ -389,7 +389,7 @@ type world struct {
 	gossipN       map[[2]int]int
 	gsplitN       map[int]int
 	preListings   map[int][]string
-	lossAtSettle  int64 // datagrams lost up to the last anti-entropy round (which repaired them)
+	lossAtSettle  int64        // datagrams lost up to the last anti-entropy round (which repaired them)
 	heldIDs       map[int]bool // identifiers the harness took out of node 0's writer pool (C06)
 	curStep       int
 	hist          []string
@@ -709,7 +709,6 @@ func runE1(t *testing.T, c *Case, hooks profileHooks) *Outcome {
 	}
 	return o
 }
-
 
 // ---------------------------------------------------------------------------------------
 // controlled scheduling of the brokers' goroutines (knob sched=1, statement-instrumented build)
@@ -1145,8 +1144,19 @@ func (w *world) apply(e *event) {
 			w.lateGossip[[2]int{e.i, e.j}] = true
 			w.statAdd("gossip_delivered_after_leave", 1)
 		}
-		for _, m := range e.data {
-			dst.dstate.Distributor().NotifyMsg(m)
+		if ctl != nil {
+			// under controlled scheduling a merge is a goroutine like any other (memberlist calls
+			// NotifyMsg from its own): it interleaves with the clients' requests statement by statement
+			data := e.data
+			go func() {
+				for _, m := range data {
+					dst.dstate.Distributor().NotifyMsg(m)
+				}
+			}()
+		} else {
+			for _, m := range e.data {
+				dst.dstate.Distributor().NotifyMsg(m)
+			}
 		}
 		w.noteRecv(dst.idx, "gossip", e.data...)
 		w.statAdd("gossip.delivered", int64(len(e.data)))
